@@ -28,6 +28,10 @@ type caseC03 struct {
 	Pre     int     `json:"pre,omitempty"`           // the input is a sub-slice starting at this offset of a larger buffer
 	Pad     int     `json:"pad,omitempty"`           // this many zero bytes are appended to the input (very long inputs)
 	Tail    bool    `json:"tail,omitempty"`          // with Pre: the input ends exactly at the end of its heap allocation
+	// FromRaw > 0 (white-box builds): the input is made of the RAW projective coordinates of the prior receiver, as if they were
+	// affine: 1 02||X, 2 03||X, 3 04||X||Y, 4 02||Y, 5 02||Z (coordinates decoder: X||Y). What the receiver holds must not
+	// influence what the input means.
+	FromRaw int `json:"from_raw,omitempty"`
 }
 
 var (
@@ -259,6 +263,9 @@ var c03 = gen.Register(&gen.Check[caseC03]{
 			c.Nil = rapid.Bool().Draw(t, "nil")
 		}
 		c.ZeroRcv = gen.Chance(t, "zeroRcv", 1, 6)
+		if !c.ZeroRcv && gen.Chance(t, "fromRaw", 1, 10) {
+			c.FromRaw = 1 + gen.Pick(t, "rawKind", 5)
+		}
 		if len(data) > 0 && c.Decoder != "coordinates" && gen.Chance(t, "interior", 1, 3) {
 			c.Pre = rapid.IntRange(1, 15).Draw(t, "pre")
 			c.Tail = gen.Chance(t, "tail", 1, 3)
@@ -348,6 +355,39 @@ func c03Once(c caseC03, o *gen.Obs) error {
 		return nil
 	}
 	data := gen.HexBytes(c.Data)
+	if c.FromRaw > 0 {
+		if !prior.RawKnown {
+			o.Class("skipped:raw-coordinates-unknown")
+			return nil
+		}
+		x, y, z := ref.Bytes32(prior.X), ref.Bytes32(prior.Y), ref.Bytes32(prior.Z)
+		switch c.FromRaw {
+		case 1:
+			data = append([]byte{2}, x...)
+		case 2:
+			data = append([]byte{3}, x...)
+		case 3:
+			data = append(append([]byte{4}, x...), y...)
+		case 4:
+			data = append([]byte{2}, y...)
+		default:
+			data = append([]byte{2}, z...)
+		}
+		switch c.Decoder {
+		case "coordinates":
+			data = append(append([]byte{}, x...), y...)
+		case "hex":
+			c.Text = hex.EncodeToString(data)
+		case "compressed":
+			if len(data) != 33 {
+				data = append([]byte{3}, x...)
+			}
+		case "uncompressed":
+			data = append(append([]byte{4}, x...), y...)
+		}
+		c.Pad, c.Nil = 0, false
+		o.Class("input-from-raw-coordinates")
+	}
 	if c.Pad > 0 {
 		data = append(data, make([]byte, c.Pad)...)
 		o.Class("very-long-input")
